@@ -35,8 +35,8 @@ type c39Case struct {
 	NotRaw      bool   `json:"not_raw"`
 }
 
-var c39Contexts = []string{"", "", "", "", "", "div", "title", "textarea", "script", "style", "plaintext", "xmp", "TITLE", "svg", "noscript"}
-var c39MaxBufs = []int{0, 0, 0, 0, 1, 2, 3, 4, 5, 7, 16, 64, 300, 4095, 4096, 4097, 8192}
+var c39Contexts = []string{"", "", "", "", "", "", "", "", "", "", "", "", "", "", "", "", "", "", "", "", "", "", "", "", "", "div", "title", "textarea", "script", "style", "plaintext", "xmp", "TITLE", "svg", "noscript"}
+var c39MaxBufs = []int{0, 0, 0, 0, 0, 0, 0, 0, 0, 0, 0, 0, 0, 1, 2, 3, 4, 5, 7, 16, 64, 300, 4095, 4096, 4097, 8192}
 
 func c39Gen(t *rapid.T) c39Case {
 	return c39Case{
@@ -212,9 +212,10 @@ func c39Prop(c c39Case, r *vp.Rec) error {
 	maxRaw := 0
 	limit := len(in) + 8
 	var tt TokenType
+	var errRaw []byte
 	for n := 0; ; n++ {
 		if n > limit {
-			return fmt.Errorf("tokenizer did not reach ErrorToken after %d calls to Next on %d input bytes: %q", n, len(in), in)
+			return fmt.Errorf("tokenizer did not reach ErrorToken after %d calls to Next on %d input bytes: %s", n, len(in), soupQ(in))
 		}
 		tt = z.Next()
 		raw := append([]byte(nil), z.Raw()...)
@@ -222,7 +223,7 @@ func c39Prop(c c39Case, r *vp.Rec) error {
 			maxRaw = len(raw)
 		}
 		if c.MaxBuf > 0 && len(raw) > c.MaxBuf {
-			return fmt.Errorf("SetMaxBuf(%d): %v token spans %d buffered bytes %q (input %q)", c.MaxBuf, tt, len(raw), raw, in)
+			return fmt.Errorf("SetMaxBuf(%d): %v token spans %d buffered bytes %s (input %s)", c.MaxBuf, tt, len(raw), soupQ(raw), soupQ(in))
 		}
 		if z.rawTag != "" {
 			sawRaw = true
@@ -251,6 +252,7 @@ func c39Prop(c c39Case, r *vp.Rec) error {
 			_ = z.Raw()
 		}
 		if tt == ErrorToken {
+			errRaw = raw
 			break
 		}
 		if c.NotRaw && tt == StartTagToken {
@@ -264,33 +266,32 @@ func c39Prop(c c39Case, r *vp.Rec) error {
 		}
 	}
 	err := z.Err()
-	errRaw := append([]byte(nil), z.Raw()...)
 	buffered := append([]byte(nil), z.Buffered()...)
 	// ErrorToken is sticky.
 	for i := 0; i < 2; i++ {
 		if tt2 := z.Next(); tt2 != ErrorToken {
-			return fmt.Errorf("Next after ErrorToken returned %v (input %q)", tt2, in)
+			return fmt.Errorf("Next after ErrorToken returned %v (input %s)", tt2, soupQ(in))
 		}
 	}
 	if !bytes.HasPrefix(in, concat) {
-		return fmt.Errorf("concatenated Raw() %q is not a prefix of the input %q", concat, in)
+		return fmt.Errorf("concatenated Raw() %s is not a prefix of the input %s", soupQ(concat), soupQ(in))
 	}
 	rest := in[len(concat):]
 	switch {
 	case err == io.EOF:
 		if len(rest) != 0 {
 			if !c39UnterminatedTag(rest) {
-				return fmt.Errorf("lossy tokenization: Raw() of all tokens gives %q, input is %q; the omitted tail %q is not an unterminated tag", concat, in, rest)
+				return fmt.Errorf("lossy tokenization: Raw() of all tokens gives %s, input is %s; the omitted tail %s is not an unterminated tag", soupQ(concat), soupQ(in), soupQ(rest))
 			}
 			r.Class("dropped-unterminated-tag")
 		}
 	case err == ErrBufferExceeded:
 		if c.MaxBuf == 0 {
-			return fmt.Errorf("ErrBufferExceeded without SetMaxBuf (input %q)", in)
+			return fmt.Errorf("ErrBufferExceeded without SetMaxBuf (input %s)", soupQ(in))
 		}
 		r.Class("maxbuf-exceeded")
 	default:
-		return fmt.Errorf("tokenization ended with unexpected error %v (input %q)", err, in)
+		return fmt.Errorf("tokenization ended with unexpected error %v (input %s)", err, soupQ(in))
 	}
 	if c.MaxBuf > 0 {
 		bound := 4*c.MaxBuf + 64
@@ -308,7 +309,7 @@ func c39Prop(c c39Case, r *vp.Rec) error {
 	// tokens + the ErrorToken's raw bytes + Buffered() + unread input == input.
 	re := append(append(append(append([]byte(nil), concat...), errRaw...), buffered...), rd.data...)
 	if !bytes.Equal(re, in) {
-		return fmt.Errorf("tokens+error raw+Buffered+unread = %q, input %q (err %v)", re, in, err)
+		return fmt.Errorf("tokens+error raw+Buffered+unread = %s, input %s (err %v)", soupQ(re), soupQ(in), err)
 	}
 
 	if cap(z.buf) > 4096 {
